@@ -16,6 +16,7 @@ DEMO=$(ls demo_*.py demo_*.sh 2>/dev/null | head -1)
 [ -n "$DEMO" ] || { echo "no demo"; exit 2; }
 run_demo() {
   case "$DEMO" in
+    *_test.py) PYTHONPATH="$W/src" timeout 900 /venv/bin/python -m pytest -q -p no:cacheprovider "$DEMO" > "$1" 2>&1 ;;
     *.py) PYTHONPATH="$W/src" timeout 600 /venv/bin/python "$DEMO" > "$1" 2>&1 ;;
     *) PYTHONPATH="$W/src" timeout 600 sh "$DEMO" > "$1" 2>&1 ;;
   esac
